@@ -35,7 +35,7 @@ try:
                         if os.path.exists(rp):
                             shutil.copy(rp, os.path.join(dst, "alarm-%s-%s" % (pid, os.path.basename(rp))))
 finally:
-    sh("git reset -q --hard HEAD", cwd="/repo")
+    sh("git reset -q --hard HEAD && git clean -fdq -e target", cwd="/repo")
     shutil.rmtree("/verif/replays", ignore_errors=True)
 json.dump(res, open(os.path.join(dst, "result.json"), "w"), indent=1)
 print(json.dumps(res))
